@@ -499,6 +499,10 @@ class DeepCopyMethod(MethodDescriptor):
         if memo is not None:
             memo[id(self)] = new  # references back to this instance resolve to the copy
         for attr, value in self.__dict__.items():
+            if attr == "__spec_class_initializing__":
+                # (Set while this instance is being initialised or thawed; the
+                # copy is a finished instance of its own.)
+                continue
             if inspect.ismethod(value) and value.__self__ is self:
                 # Re-bind methods of this instance to the copy (copying them
                 # naively would recurse back into this instance).
